@@ -5,6 +5,7 @@ import reactivex
 from reactivex import Observable, abc
 from reactivex.disposable import (
     CompositeDisposable,
+    Disposable,
     SerialDisposable,
     SingleAssignmentDisposable,
 )
@@ -40,10 +41,16 @@ def on_error_resume_next_(
 
         subscription = SerialDisposable()
         cancelable = SerialDisposable()
+        is_disposed = False
 
         def action(
             scheduler: abc.SchedulerBase, state: Exception | None = None
         ) -> None:
+            # A scheduler that runs work inline has already started this step
+            # by the time its handle is cancelled: check the flag ourselves.
+            if is_disposed:
+                return
+
             try:
                 source = next(sources_)
             except StopIteration:
@@ -69,7 +76,12 @@ def on_error_resume_next_(
             )
 
         cancelable.disposable = scheduler.schedule(action)
-        return CompositeDisposable(subscription, cancelable)
+
+        def dispose() -> None:
+            nonlocal is_disposed
+            is_disposed = True
+
+        return CompositeDisposable(subscription, cancelable, Disposable(dispose))
 
     return Observable(subscribe)
 
